@@ -19,7 +19,8 @@ RULE = ("Hypothesis draws an algebraic program over {+, -, unary -, c*, *c, /c, 
         "Identity/ScalarMul/Diagonal operand, or a mismatch (incl. Kronecker sums of non-square operands whose shapes "
         "compensate, a x b with b x a)."
         " Further: cola.block_diag of operands that are BlockDiag with multiplicities, the same operator object as two"
-        " operands, column-major operands.")
+        " operands, column-major operands."
+        " Round 5: nested functional Kronecker products with two different Diagonal factors adjacent after flattening.")
 ASSUMPTIONS = [
     "expected dtype = numpy result_type over leaf dtypes; Python/NumPy scalars contribute only their kind (real/complex)",
     "c / A is read as c * inv(A); a raised TypeError/NotImplementedError is accepted as a refusal, any other value is a violation",
@@ -155,6 +156,16 @@ def cases(draw, tier):
     if g.integer(1, 8) == 1:
         tree, kind = g.mismatch(depth - 1)
         return {"tree": tree, "mismatch": kind}
+    if g.integer(1, 15) == 1:
+        # nested functional Kronecker products whose flattening puts two different Diagonal factors next to each other
+        a, m = g.integer(1, 3), g.integer(1, 3)
+        D1 = {"k": "diag", "d": gen.enc(g.array((a, ), g.dtype()))}
+        D2 = {"k": "diag", "d": gen.enc(g.array((m, ), g.dtype()))}
+        X = g.k_dense(g.integer(1, 2), g.integer(1, 3))
+        tree = g.pick([lambda: {"k": "kron", "via": "fn", "ch": [D1, {"k": "kron", "via": "fn", "ch": [D2, X]}]},
+                       lambda: {"k": "kron", "via": "fn", "ch": [{"k": "kron", "via": "fn", "ch": [X, D1]}, D2]},
+                       lambda: {"k": "kron", "via": "fn", "ch": [{"k": "kron", "via": "fn", "ch": [X, D1]}, {"k": "kron", "via": "fn", "ch": [D2, g.k_dense(1, 2)]}]}])()
+        return {"tree": tree, "x": g.operand(IR.denote(tree).shape[1], ranks=(1, 2))}
     if g.integer(1, 12) == 1:
         # block-diagonal assembly of operands that are themselves block diagonal with multiplicities
         def small():
